@@ -49,6 +49,11 @@ func TestHarness(t *testing.T) {
 		rr := r.Fork()
 		runCase(t, o, "C19 concurrent", func() { concCase(rr, o) })
 	}
+	nPool := 4
+	if *fTier == "thorough" {
+		nPool = 60
+	}
+	poolFamily(t, o, r.Fork(), nPool)
 	if *fShard == 0 {
 		for _, scheme := range []string{"tcp", "ws"} {
 			n := 3
